@@ -45,6 +45,10 @@ func (h *EthHeader) Hash() (hash common.Hash) {
 }
 
 func (h Header) ValidateBasic() error {
+	// ToEthHeader converts the bloom with types.BytesToBloom, which panics on oversized input
+	if len(h.Bloom) > types.BloomByteLength {
+		return sdkerrors.Wrapf(clienttypes.ErrInvalidHeader, "bloom is longer than %d bytes", types.BloomByteLength)
+	}
 	// Verify that the gas limit is <= 2^63-1
 	cap := uint64(0x7fffffffffffffff)
 	if h.GasLimit > cap {
